@@ -112,3 +112,54 @@ Theorem C15_method_calls_closed_refuted :
        resolve_method (Some i) (fun _ => true) sc = MInherent i).
 Proof. exact Proofs.method_calls_closed_refuted. Qed.
 Print Assumptions C15_method_calls_closed_refuted.
+
+Theorem C15_assoc_paths_classified :
+  forall t p, In t templates -> In p (assoc_paths t) ->
+    assoc_path_closed templates (generic_params t) p = true \/
+    In (assoc_key (t_file t, (hd "" p ++ "::" ++ last_seg p)%string)) known_assoc_sites.
+Proof. exact Proofs.assoc_paths_classified. Qed.
+Print Assumptions C15_assoc_paths_classified.
+
+Theorem C15_assoc_paths_all_closed :
+  forall t p, In t templates -> In p (assoc_paths t) -> assoc_path_closed templates (generic_params t) p = true.
+Proof. exact Proofs.assoc_paths_all_closed. Qed.
+Print Assumptions C15_assoc_paths_all_closed.
+
+Theorem C15_type_relative_assoc_observes_scope :
+  forall c d : N, c <> d ->
+    let provides := fun _ : N => true in
+    resolve_assoc None None provides {| mc_macro := [c]; mc_user := []; mc_prelude := [] |} = MTrait c /\
+    resolve_assoc None None provides {| mc_macro := [c]; mc_user := [d]; mc_prelude := [] |} = MAmbiguous /\
+    (forall i sc, resolve_assoc None (Some i) provides sc = MInherent i) /\
+    (forall inh sc, resolve_assoc (Some c) inh provides sc = MTrait c).
+Proof. exact Proofs.type_relative_assoc_observes_scope. Qed.
+Print Assumptions C15_type_relative_assoc_observes_scope.
+
+Theorem C15_binders_classified :
+  forall t x, In t templates -> In x (pattern_binders t) ->
+    starts_dunder x = true \/ binder_listed x = true.
+Proof. exact Proofs.binders_classified. Qed.
+Print Assumptions C15_binders_classified.
+
+Theorem C15_binders_all_dunder_refuted :
+  exists t x, In t templates /\ In x (pattern_binders t) /\ t_file t = "try_from.rs"%string /\ x = "val"%string /\
+              starts_dunder x = false /\
+              (forall n, resolve_pattern_ident (fun y => if String.eqb y "val" then Some n else None) x = PPathTo n) /\
+              resolve_pattern_ident (fun _ => None) x = PBinding x.
+Proof. exact Proofs.binders_all_dunder_refuted. Qed.
+Print Assumptions C15_binders_all_dunder_refuted.
+
+Theorem C15_unit_item_captures_binder :
+  forall (items : string -> option N) x n, items x = Some n ->
+    resolve_pattern_ident items x = PPathTo n /\ resolve_pattern_ident (fun _ => None) x = PBinding x.
+Proof. exact Proofs.unit_item_captures_binder. Qed.
+Print Assumptions C15_unit_item_captures_binder.
+
+Theorem C15_dunder_binder_scope_independent :
+  forall (items1 items2 : string -> option N) x,
+    starts_dunder x = true ->
+    (forall y, starts_dunder y = true -> items1 y = None) ->
+    (forall y, starts_dunder y = true -> items2 y = None) ->
+    resolve_pattern_ident items1 x = resolve_pattern_ident items2 x.
+Proof. exact Proofs.dunder_binder_scope_independent. Qed.
+Print Assumptions C15_dunder_binder_scope_independent.
